@@ -1200,8 +1200,10 @@ class TLSConnection(TLSRecordLayer):
                 AlertDescription.illegal_parameter,
                 "Server responded with unrequested NPN Extension"):
                 yield result
+        # TLS 1.3 always binds the secrets to the transcript (RFC 8446, C.5)
         if not serverHello.getExtension(ExtensionType.extended_master_secret)\
-            and settings.requireExtendedMasterSecret:
+            and settings.requireExtendedMasterSecret \
+            and self.version < (3, 4):
             for result in self._sendError(
                     AlertDescription.insufficient_security,
                     "Negotiation of Extended master Secret failed"):
